@@ -35,8 +35,12 @@ def plan(tier, seed, budget):
 
 
 MUTATIONS = ["none", "none", "undefined_on_path", "return_in_branch", "return_in_loop", "augassign", "del", "try", "with", "comprehension",
-             "chained_compare", "multi_target", "break_not_last", "bad_loop_bound", "arity_mismatch", "loop_var_after_loop", "while_non_name"]
-MUST_REFUSE = {"undefined_on_path", "return_in_branch", "return_in_loop", "loop_var_after_loop"}
+             "chained_compare", "multi_target", "break_not_last", "bad_loop_bound", "arity_mismatch", "loop_var_after_loop", "while_non_name",
+             "graph_scan", "graph_scan_msdomain", "graph_capture_modified", "graph_capture_rebound_inside"]
+# graph_capture_*: a nested @graph function (Scan body) reads a variable of the enclosing function that is re-assigned between the nested
+# definition and its use as an attribute - the graph would capture the stale value; the converter documents the refusal ("Outer scope
+# variable ... modified"). *_rebound_inside: the nested function also assigns the name after reading it (not even valid Python).
+MUST_REFUSE = {"undefined_on_path", "return_in_branch", "return_in_loop", "loop_var_after_loop", "graph_capture_modified", "graph_capture_rebound_inside"}
 
 
 def _first(stmts, kind):
@@ -78,6 +82,29 @@ def mutate(prog, kind, draw):
         body.append(Assign(["zz2"], Call("Identity", [Var("lv")], {})))
         p.returns = [Var("zz2")]
         p.ret_types = [("INT64", 0)]
+        return p
+    if kind.startswith("graph_"):
+        fp = [(n, dt, r) for n, dt, r in p.params if dt in ("FLOAT", "DOUBLE") and r >= 1]
+        if not fp:
+            return None
+        X = fp[0][0]
+        inner = "msop.Gelu(sc_x)" if kind == "graph_scan_msdomain" else "op.Mul(sc_x, sc_k)"
+        lines = [f"sc_k = op.CastLike(op.Constant(value_float=2.0), {X})",
+                 "@graph()",
+                 f"def sc_body(sc_acc: {scriptgen._ann(fp[0][1], fp[0][2] - 1)}, sc_x: {scriptgen._ann(fp[0][1], fp[0][2] - 1)}) -> ({scriptgen._ann(fp[0][1], fp[0][2] - 1)}, {scriptgen._ann(fp[0][1], fp[0][2] - 1)}):",  # (annotated, as in the documentation's Scan examples)
+                 f"    sc_y = {inner}"]
+        if kind == "graph_capture_rebound_inside":
+            lines.append("    sc_k = op.Add(sc_x, sc_y)")
+            lines.append("    return op.Add(sc_acc, sc_k), sc_y")
+        else:
+            lines.append("    return op.Add(sc_acc, sc_y), sc_y")
+        if kind in ("graph_capture_modified", "graph_capture_rebound_inside"):
+            lines.append(f"sc_k = op.CastLike(op.Constant(value_float=10.0), {X})")
+        lines += [f"sc_zero = op.ReduceSum({X} * 0.0, [0], keepdims=0)",  # (the state has the type of one scanned slice)
+                  f"sc_total, sc_ys = op.Scan(sc_zero, {X}, body=sc_body, num_scan_inputs=1)"]
+        body.append(Raw("\n".join(lines)))
+        p.returns = list(p.returns) + [Var("sc_ys")]
+        p.ret_types = list(p.ret_types) + [(fp[0][1], fp[0][2])]
         return p
     raw = {
         "augassign": f"{x} += 1",
@@ -140,7 +167,10 @@ def _checker_class(msg):
 def evaluate(source, prog, kind):
     info = {"kind": kind}
     try:
-        mod = scriptgen.compile_source(source, prog.opset)
+        import onnxscript
+        from onnxscript import values as _values
+
+        mod = scriptgen.compile_source(source, prog.opset, extra_globals={"graph": onnxscript.graph, "msop": _values.Opset("com.microsoft", 1)})
     except Exception as e:  # noqa: BLE001
         msg = f"{type(e).__name__}: {e}"
         info["refused"] = msg[:200]
